@@ -243,6 +243,26 @@ Definition table_matches (tt : typetable) (T : table (EOps tt)) (st : snap_table
              | None => false
              end) cols.
 
+(* the same up to encoding (the equivalence of the theorems): schema as a map, row ids, cells by ev_enc *)
+Definition table_equiv (tt : typetable) (T : table (EOps tt)) (st : snap_table) : bool :=
+  let '(_, rows, cols) := st in
+  zlist_eqb (t_rows _ T) rows &&
+  Nat.eqb (length (t_cols _ T)) (length cols) &&
+  forallb (fun sc : snap_col =>
+             let '(c, info, vals) := sc in
+             match find_col _ (t_cols _ T) c with
+             | Some C => colinfo_eqb (c_info _ C) info && list_eqb ev_enc (map (col_get _ C) rows) vals
+             | None => false
+             end) cols.
+
+Definition state_equiv (tt : typetable) (s : state (EOps tt)) (sn : snapshot) : bool :=
+  Nat.eqb (length s) (length sn) &&
+  forallb (fun st : snap_table =>
+             match find_table _ s (fst (fst st)) with
+             | Some T => table_equiv tt T st
+             | None => false
+             end) sn.
+
 Definition state_matches (tt : typetable) (s : state (EOps tt)) (sn : snapshot) : bool :=
   Nat.eqb (length s) (length sn) &&
   forallb (fun st : snap_table =>
@@ -384,9 +404,9 @@ Definition undo_redo_code (tt : typetable) (tr : trace tt) : Z :=
   let redo_from s0 :=
     match replay_doc _ (tr_stored tr) s0 with
     | Err _ => 256
-    | Ok s1 => if state_matches tt s1 (tr_final tr) then 0 else 256
+    | Ok s1 => if state_equiv tt s1 (tr_final tr) then 0 else 256
     end in
   match replay_doc _ (rev (tr_undo tr)) (state_of_snapshot tt (tr_final tr)) with
   | Err _ => 128 + redo_from (state_of_snapshot tt (tr_start tr))
-  | Ok s0 => (if state_matches tt s0 (tr_start tr) then 0 else 128) + redo_from s0
+  | Ok s0 => (if state_equiv tt s0 (tr_start tr) then 0 else 128) + redo_from s0
   end.
